@@ -1,10 +1,11 @@
 #!/usr/bin/env python3
 """False-alarm test: applies every property-PRESERVING change under /verif/preserving to /repo, runs ALL quick checks,
 expects exit 0 from each, reverts, and records the outcome in preserving/<area>/<k>/result.json.
-usage: tools/preserve_run.py [--only <area>]"""
+usage: tools/preserve_run.py [--only <area>] [--match <substring of patch name>]"""
 import json, os, subprocess, sys, glob, re
 ROOT = os.path.dirname(os.path.dirname(os.path.abspath(__file__)))
-only = sys.argv[2] if len(sys.argv) > 2 and sys.argv[1] == "--only" else None
+def opt(n): return sys.argv[sys.argv.index(n) + 1] if n in sys.argv else None
+only, match = opt("--only"), opt("--match")
 def sh(cmd): return subprocess.run(cmd, shell=True, capture_output=True, text=True)
 assert sh("git -C /repo diff --quiet").returncode == 0, "/repo is dirty"
 ids = sh(f"{ROOT}/harness/target-checked/release/verif list x").stdout.split()
@@ -13,6 +14,7 @@ for d in sorted(glob.glob(f"{ROOT}/preserving/*/*")):
     if not os.path.isfile(d + "/patch.diff"): continue
     area, k = d.split("/")[-2:]
     if only and area != only: continue
+    if match and match not in k: continue
     r = sh(f"git -C /repo apply {d}/patch.diff")
     if r.returncode != 0:
         rows.append((area, k, "PATCH DOES NOT APPLY", "")); continue
